@@ -79,9 +79,6 @@ Proof. vm_compute. repeat split; reflexivity. Qed.
 
 (* one call on a long-lived ensemble: the jobs of the call carry the job numbers base, base+1, ... in member order
    (base = number of jobs submitted by the earlier calls) *)
-Fixpoint numbered {A} (base : Z) (xs : list A) : list (Z * A) :=
-  match xs with [] => [] | x :: t => (base, x) :: numbered (base + 1) t end.
-
 Lemma numbered_lb {A} (xs : list A) : forall base k, In k (map fst (numbered base xs)) -> base <= k.
 Proof.
   induction xs as [|x t IH]; intros base k H; [destruct H|]. cbn [numbered map fst] in H.
@@ -102,3 +99,44 @@ Lemma order_by_id_calls {A} (base : Z) (xs : list A) (done : list (Z * A)) :
 Proof.
   intros Hp. rewrite (order_by_id_restores A (numbered base xs) done (numbered_sorted xs base) Hp). apply numbered_snd.
 Qed.
+
+(* ---- several calls on one ensemble, some of them failing ---- *)
+(* gather() hands over exactly the jobs that are in the evaluator: the leftovers and the jobs of this call *)
+Fixpoint calls_wf {A} (close_on_failure : bool) (st : evst A) (cs : list (callin A)) : Prop :=
+  match cs with
+  | [] => True
+  | c :: t => Permutation (c_order c) (ev_left st ++ numbered (ev_next st) (c_xs c))
+              /\ calls_wf close_on_failure (snd (call close_on_failure st c)) t
+  end.
+
+Lemma numbered_length {A} (xs : list A) : forall base, length (numbered base xs) = length xs.
+Proof. induction xs as [|x t IH]; intros base; cbn [numbered length]; [reflexivity|]. rewrite IH. reflexivity. Qed.
+
+Lemma call_clean {A} (st : evst A) (c : callin A) :
+  ev_left st = [] -> Permutation (c_order c) (ev_left st ++ numbered (ev_next st) (c_xs c)) ->
+  call true st c = (if c_failed c then Raised else Returned (c_xs c), mkEv (ev_next st + Z.of_nat (length (c_xs c))) []).
+Proof.
+  intros Hl Hp. rewrite Hl in Hp. cbn [app] in Hp. unfold call. destruct (c_failed c); [reflexivity|].
+  assert (Hlen : length (c_order c) = length (c_xs c)) by (rewrite (Permutation_length Hp); apply numbered_length).
+  rewrite <- Hlen, firstn_all, (order_by_id_calls (ev_next st) (c_xs c) (c_order c) Hp). reflexivity.
+Qed.
+
+(* with close() after a failure the evaluator is empty before every call, so every call that does not fail returns
+   its own members' outputs in member order, whatever happened in the earlier calls *)
+Lemma run_calls_clean {A} : forall (cs : list (callin A)) (st : evst A),
+  ev_left st = [] -> calls_wf true st cs ->
+  run_calls true st cs = map (fun c => if c_failed c then Raised else Returned (c_xs c)) cs.
+Proof.
+  induction cs as [|c t IH]; intros st Hl Hw; [reflexivity|]. cbn [calls_wf] in Hw. destruct Hw as [Hp Hw].
+  cbn [run_calls map]. rewrite (call_clean st c Hl Hp) in *. cbn [fst snd] in *. f_equal. apply IH; [reflexivity|exact Hw].
+Qed.
+
+(* without close(): a 3-member call whose member 0 fails first (noticed after one gathered job), then a retry with other
+   members: the retry is handed the two leftovers first and returns two outputs of the FAILED call *)
+Lemma leftovers_witness :
+  let c1 := mkCall [10; 11; 12] true 1 [(0, 10); (1, 11); (2, 12)] in
+  let c2 := mkCall [20; 21; 22] false 0 [(1, 11); (2, 12); (3, 20); (4, 21); (5, 22)] in
+  calls_wf false (mkEv 0 []) [c1; c2]
+  /\ run_calls false (mkEv 0 []) [c1; c2] = [Raised; Returned [11; 12; 20]]
+  /\ run_calls true (mkEv 0 []) [c1; mkCall [20; 21; 22] false 0 [(5, 22); (3, 20); (4, 21)]] = [Raised; Returned [20; 21; 22]].
+Proof. cbn [calls_wf call c_failed c_order c_stop c_xs ev_left ev_next snd skipn app numbered length]. repeat split; try reflexivity. Qed.
